@@ -152,7 +152,7 @@ func vRunSched(t *testing.T, prop string, profile vProfile, nQuick, nThorough in
 			if overlaps > 0 {
 				rep.Count("histories_with_unload_racing_an_outstanding_grant", 1)
 			}
-			if rep.NeedSample() && len(out.Events) > 20 && len(out.Events) < 90 {
+			if rep.NeedSample() && len(out.Events) > 12 && len(out.Events) < 120 {
 				rep.Sample(map[string]any{"history": h, "events": out.Events})
 			}
 		}
